@@ -18,7 +18,7 @@ import itertools
 
 from hypothesis import strategies as st
 
-from vlib import boot, hyp, rm, tg
+from vlib import boot, fuzz, hyp, rm, tg
 
 LEVEL = 'exploration'
 RULE = ('case = ordered pair (S,T) of types over a class table; exhaustive part: every ordered pair of the complete '
@@ -268,6 +268,85 @@ def exhaustive_part(spec, col):
                                           size=_size(s, t, u) + len(str(pool[j])))
 
 
+# ------------------------------------------------------------------ (a') the language's own builtin types
+def builtin_part(spec, col):
+    """Every ordered pair of the language's builtin types (boxed and primitive builtins, Array<B> / Seq<B> over the
+    boxed builtins, Kotlin's specialised arrays).  The reference hierarchy of a builtin is the transitive closure of
+    its declared supertypes; two builtin constructors are the same class only if they are the same Python class (this is
+    how the translators tell DoubleArray from Array<Double>)."""
+    lang = spec['lang']
+    if spec['k'] >= 4:          # one shard per language
+        return
+    u = tg.Universe(lang)
+    J = Judge(u, col, 'builtins')
+    entries = []
+    seen = set()
+    for t, ir in u.all_builtins:
+        if t not in seen:
+            seen.add(t)
+            entries.append((t, ir, False))
+    boxed = [t for t, ir in u.builtins]
+    for key in sorted(k for k in u.classes if k not in u.order and k != 'SpecializedArrayType:Array'):
+        con = u.classes[key]
+        if len(con.type_parameters) != 1:
+            continue
+        for b in boxed:
+            t = ('i', key, (b,))
+            if t not in seen:
+                seen.add(t)
+                entries.append((t, u.ir(t), False))
+    if hasattr(u.factory, 'get_primitive_types'):
+        for ir in u.factory.get_primitive_types():
+            entries.append((rm.to_term(ir, u.table), ir, True))
+    col.add_extra('builtin_pool_types', len(entries))
+    for s, irs, ps in entries:
+        for t, irt, pt in entries:
+            J.pair(s, t, irs, irt, prim=ps or pt)
+
+
+# ------------------------------------------------------------------ (a'') type variables through the hierarchy
+def variable_part(spec, col):
+    """Inside the body of each generic class K of the fixed tables (its own parameters in scope), every
+    instantiation of every generic class with those variables and one ground type: each supertype the implementation
+    enumerates for it must be a supertype in the reference (substitution reaches every level of the hierarchy)."""
+    if spec['k'] >= 4:
+        return
+    lang = spec['lang']
+    for name, u in tg.fixed_universes(lang, with_chains=True):
+        ground = [t for t, _ in u.builtins][2:3]
+        for scope_class in u.generics():
+            J = Judge(u, col, 'variables:' + name, scope_class)
+            env = {p.name: p for p in u.classes[scope_class].type_parameters}
+            vs = [('v', pn, pb) for pn, pv, pb in u.table.cls[scope_class]['params']] + ground
+            for k in u.generics():
+                n = len(u.table.cls[k]['params'])
+                for args in itertools.product(vs, repeat=n):
+                    s = ('i', k, tuple(args))
+                    if not J.sem.wf(s):
+                        continue
+                    try:
+                        irs = u.ir(s, env)
+                        sups = sorted(irs.get_supertypes(), key=str)
+                    except Exception as e:
+                        col.feature('impl_exception_get_supertypes:' + type(e).__name__)
+                        continue
+                    for sup in sups:
+                        try:
+                            tt = rm.to_term(sup)
+                        except Exception:
+                            continue
+                        col.feature('impl_enumerated_supertypes')
+                        J.pair(s, tt, irs, sup, check_assignable=False)
+                    # and the other direction: every reference supertype is answered positively (variables are outside
+                    # the exact fragment, so this is counted, not judged)
+                    for t in J.sem.all_supers(s):
+                        try:
+                            if not irs.is_subtype(u.ir(t, env)):
+                                col.feature('reference_supertype_not_recognised(variables, not judged)')
+                        except Exception:
+                            pass
+
+
 # ------------------------------------------------------------------ (b) random universes, constructive pairs
 def moves(draw, u, R, s, scope, nmax=3):
     """Derive types related to s by construction; returns list of terms."""
@@ -371,15 +450,22 @@ def pair_cases(draw, lang):
             ts.append(('k', draw(st.sampled_from(u.generics()))))
         for t in ts:
             pairs.append((s, t))
+    if scope_class is not None:
+        # instantiations of the generic classes of the table with the variables in scope (C<H, H>, D<G, H>, ...): their
+        # implementation-enumerated supertypes are judged (substitution of variables through every level of the hierarchy)
+        vs = sorted(scope.values())
+        for k in u.generics():
+            n = len(u.table.cls[k]['params'])
+            s = ('i', k, tuple(draw(st.sampled_from(vs)) for _ in range(n)))
+            if R.wf(s):
+                pairs.append((s, s))
     return u, scope_class, pairs
 
 
-def random_part(spec, col, n):
-    lang = spec['lang']
-
+def make_one(col, origin='random'):
     def one(case):
         u, scope_class, pairs = case
-        J = Judge(u, col, 'random', scope_class)
+        J = Judge(u, col, origin, scope_class)
         env = {}
         if scope_class is not None:
             env = {p.name: p for p in u.classes[scope_class].type_parameters}
@@ -415,7 +501,16 @@ def random_part(spec, col, n):
             col.feature('universes_with_decl_variance')
         if any(pb is not None for k in u.order for pn, pv, pb in u.table.cls[k]['params']):
             col.feature('universes_with_bounds')
-    hyp.explore(pair_cases(lang), one, n, col.shard_seed('rand'))
+    return one
+
+
+def random_part(spec, col, n):
+    hyp.explore(pair_cases(spec['lang']), make_one(col), n, col.shard_seed('rand'))
+
+
+def fuzz_entry(spec, col):
+    """coverage-guided leg (vlib/fuzz.py): same strategy, same judge."""
+    return pair_cases(spec['lang']), make_one(col, 'atheris')
 
 
 def _has_prim(u, t):
@@ -442,8 +537,11 @@ def _contains(t, x):
 def run_shard(spec, col):
     boot.init_types_only()
     exhaustive_part(spec, col)
+    builtin_part(spec, col)
+    variable_part(spec, col)
     n = 250 if col.tier == 'quick' else 6000
     random_part(spec, col, n)
+    fuzz.campaign('C06', spec, col, runs=300 if col.tier == 'quick' else 20000)
     recorded_part(spec, col)
 
 
